@@ -409,7 +409,7 @@ package objects
 //@   props C01 C05
 //@   sweep
 //@   mode nopanic=off
-//@   at[schedulable] call objects.Application.tryNode#1: assert arg1.schedulable
+//@   at[schedulable:C01] call objects.Application.tryNode#1: assert arg1.schedulable
 
 // the non-forced bind gate has exactly two callers; both carry the gate obligations (tryNode above, the cross-node
 // placeholder swap in tryPlaceholderAllocate under C06)
